@@ -613,9 +613,12 @@ pub fn marshal_rtcp_packets(packets: &[RtcpPacket]) -> RtpResult<Vec<u8>> {
             RtcpPacket::RemoteBitrateEstimate(remb) => {
                 write_rtcp_packet(&mut out, RTCP_PSFB_APP, RTCP_PSFB, build_remb_body(remb)?)
             }
-            RtcpPacket::TransportWideCc(twcc) => {
-                write_rtcp_packet(&mut out, RTCP_RTPFB_TWCC, RTCP_RTPFB, build_twcc_body(twcc))
-            }
+            RtcpPacket::TransportWideCc(twcc) => write_rtcp_packet_padded(
+                &mut out,
+                RTCP_RTPFB_TWCC,
+                RTCP_RTPFB,
+                build_twcc_body(twcc),
+            ),
         }
     }
     Ok(out)
@@ -630,6 +633,23 @@ fn write_rtcp_packet(out: &mut Vec<u8>, fmt: u8, packet_type: u8, mut body: Vec<
     out.push(packet_type);
     out.extend_from_slice(&length.to_be_bytes());
     out.extend_from_slice(&body);
+}
+
+/// Like `write_rtcp_packet`, but a body that is not 32-bit aligned gets RTCP
+/// padding (RFC 3550 section 6.4.1: P bit set, last octet = number of padding
+/// octets) so that the receiver strips it again instead of seeing extra zeros.
+fn write_rtcp_packet_padded(out: &mut Vec<u8>, fmt: u8, packet_type: u8, mut body: Vec<u8>) {
+    let pad = (4 - body.len() % 4) % 4;
+    let start = out.len();
+    if pad > 0 {
+        body.resize(body.len() + pad, 0);
+        let last = body.len() - 1;
+        body[last] = pad as u8;
+    }
+    write_rtcp_packet(out, fmt, packet_type, body);
+    if pad > 0 {
+        out[start] |= 0x20;
+    }
 }
 
 fn parse_sender_report(fmt: u8, body: &[u8]) -> RtpResult<SenderReport> {
